@@ -14,11 +14,13 @@ CFG = dict(
         # Delaunay / strict winding invariants of the insertion loop under the two NAMED geometric hypotheses
         "bw_delaunay_of_fanEmpty", "bw_strict_winding_of_fanPositive", "bw_empty_circumcircles",
         "fanPositive_check_sound", "fanEmpty_check_sound",
+        # the geometric content of FanPositive at one boundary edge
+        "two_circle", "boundary_edge_inner",
     ],
     # auxiliary lemmas used by the theorems above (kernel-checked with them; not counted as property theorems)
     helper_theorems=[
         "mem_insertTri_iff", "insertTri_nodup", "fillHole_spec", "step_spec", "step_perm", "loop_perm", "stateAt_succ",
-        "stateAt_nodup", "inCircleDet_corner", "delaunay_inv_of_fanEmpty", "winding_inv_of_fanPositive",
+        "stateAt_nodup", "inCircleDet_corner", "two_circle_identity", "delaunay_inv_of_fanEmpty", "winding_inv_of_fanPositive",
         "sep_key", "sepEdge_sound", "loop_inv", "pointFn_input", "pointFn_super", "orient_smul",
         "delaunay_check_raw",
     ],
@@ -40,8 +42,10 @@ CFG = dict(
         "inside its circumcircle) and FanPositive (the inserted point is strictly on the inner side of every directed boundary edge of its cavity: "
         "the cavity is strictly star-shaped). bw_delaunay_of_fanEmpty / bw_strict_winding_of_fanPositive / bw_empty_circumcircles reduce the "
         "empty-circumcircle and uniform-winding/positive-area clauses of the MODEL, for every map order, to these two facts about the states the loop "
-        "reaches; discharging them needs the triangulation structure (edge pairing, closed cavity boundary) and the two-circle lemma and is not "
-        "attempted. They are decided per run by executable forms (fanPositive_check_sound, fanEmpty_check_sound) on the model's own states in exact "
+        "reaches; the geometric content of FanPositive at one edge IS proved (two_circle, boundary_edge_inner: a bad triangle whose clockwise, locally "
+        "Delaunay neighbour across an edge is not bad has the inserted point strictly on its side of that edge); what remains unproved is the "
+        "COMBINATORIAL structure (every non-super edge of a state has a neighbour with the reversed edge, the cavity boundary is a closed cycle, "
+        "the states are Delaunay with respect to the super-triangle vertices too) and FanEmpty itself. They are decided per run by executable forms (fanPositive_check_sound, fanEmpty_check_sound) on the model's own states in exact "
         "arithmetic (oracles c20.holds.fan_positive / fan_empty, inputs up to 40 points). No hypothesis is isolated for the non-overlap clause",
         "proved for the model only under positive width (superTriangle_cw); inputs of zero width (all x equal) are not in general position",
     ],
